@@ -61,18 +61,19 @@ type Fault struct {
 type Config struct {
 	Seed uint64
 	// generate mode
-	MeanGap    int64   // mean number of yields between pre-emptions (geometric); 0 = never pre-empt mid-task
-	SwitchAt   []int64 // explicit global yield indices of pre-emptions (PCT-style); overrides MeanGap while not exhausted
-	HotBias    bool
-	HotSlack   int64
-	StallTask  int32 // -1 none: task excluded from choices for StallFor decisions after its first pre-emption
-	StallFor   int
-	LowPrio    int32 // -1 none: task only chosen when nothing else is runnable
-	Faults     []Fault
-	SiteFlags  []uint8
-	NumSites   int
-	Replay     []Segment // replay mode when Active && ReplayMode
-	ReplayMode bool
+	MaxSwitches int64   // after this many context switches tasks run to completion (0 = 4000); bounds the cost of dense schedules on long operations
+	MeanGap     int64   // mean number of yields between pre-emptions (geometric); 0 = never pre-empt mid-task
+	SwitchAt    []int64 // explicit global yield indices of pre-emptions (PCT-style); overrides MeanGap while not exhausted
+	HotBias     bool
+	HotSlack    int64
+	StallTask   int32 // -1 none: task excluded from choices for StallFor decisions after its first pre-emption
+	StallFor    int
+	LowPrio     int32 // -1 none: task only chosen when nothing else is runnable
+	Faults      []Fault
+	SiteFlags   []uint8
+	NumSites    int
+	Replay      []Segment // replay mode when Active && ReplayMode
+	ReplayMode  bool
 }
 
 // Stats of one run.
@@ -336,6 +337,13 @@ func IsAbort(v interface{}) bool {
 //go:norace
 func nextBudget() int64 {
 	c := &st.cfg
+	max := c.MaxSwitches
+	if max <= 0 {
+		max = 4000
+	}
+	if st.switches >= max {
+		return Inf
+	}
 	if st.swIdx < len(c.SwitchAt) {
 		for st.swIdx < len(c.SwitchAt) && c.SwitchAt[st.swIdx] <= st.gyields {
 			st.swIdx++
